@@ -1,0 +1,25 @@
+//go:build verif
+
+package server
+
+import (
+	"github.com/bmeg/grip/config"
+	"github.com/bmeg/grip/gdbi"
+	"github.com/bmeg/grip/jobstorage"
+)
+
+// NewVerifServer builds a GripServer whose handlers can be called directly:
+// no port is bound, job storage lives in jobDir, the graph map is initialised.
+// Verification hook: compiled only with the `verif` build tag.
+func NewVerifServer(conf *config.Config, baseDir string, drivers map[string]gdbi.GraphDB, jobDir string) (*GripServer, error) {
+	s, err := NewGripServer(conf, baseDir, drivers)
+	if err != nil {
+		return nil, err
+	}
+	s.jStorage = jobstorage.NewFSJobStorage(jobDir)
+	s.updateGraphMap()
+	return s, nil
+}
+
+// VerifRefresh re-reads the graph map (what Serve does periodically).
+func (server *GripServer) VerifRefresh() { server.updateGraphMap() }
